@@ -82,7 +82,7 @@ func c03GenSched(tier string, emit func(c03Case)) {
 	if tier == "thorough" {
 		budget = 240
 	}
-	hist := [][]c03scen.Req{nil, {{Method: "GET", Path: "/u/1"}}, {{Method: "GET", Path: "/boom/now"}}, {{Method: "GET", Path: "/redir"}}, {{Method: "GET", Path: "/redir"}, {Method: "GET", Path: "/boom/now"}}}
+	hist := [][]c03scen.Req{nil, {{Method: "GET", Path: "/u/1"}}, {{Method: "GET", Path: "/boom/now"}}, {{Method: "GET", Path: "/redir"}}, {{Method: "GET", Path: "/redir"}, {Method: "GET", Path: "/boom/now"}}, {{Method: "GET", Path: "/zz/q"}}, {{Method: "POST", Path: "/a"}, {Method: "GET", Path: "/u/2"}}}
 	// cache seam first: it is small and decides the cache's own atomicity
 	c03GenSeam(tier, emit)
 	// request pairs: every unordered pair of kinds (with repetition), rotated over the shapes so that every
@@ -95,16 +95,22 @@ func c03GenSched(tier string, emit func(c03Case)) {
 					continue
 				}
 				reqs := []c03scen.Req{kinds[i], kinds[j]}
-				h := hist[(n+si)%len(hist)]
-				if tier == "quick" {
-					// every statement of rux is a preemption point at bound 1; lock/pool/list/handler points at bound 2
-					emit(c03Case{Kind: "sched", Sched: &schedCfg{Shape: sh, Reqs: reqs, History: h, Bound: 1, Stmt: true, BudgetS: budget}})
-					emit(c03Case{Kind: "sched", Sched: &schedCfg{Shape: sh, Reqs: reqs, History: h, Bound: 2, Stmt: false, BudgetS: budget}})
-				} else {
-					emit(c03Case{Kind: "sched", Sched: &schedCfg{Shape: sh, Reqs: reqs, History: h, Bound: 2, Stmt: true, BudgetS: budget}})
-					emit(c03Case{Kind: "sched", Sched: &schedCfg{Shape: sh, Reqs: reqs, History: h, Bound: 3, Stmt: false, BudgetS: budget}})
-					if si%4 == n%4 {
-						emit(c03Case{Kind: "sched", Sched: &schedCfg{Shape: sh, Reqs: reqs, History: h, Bound: 1, Stmt: true, AllStmt: true, BudgetS: budget}})
+				hs := [][]c03scen.Req{hist[(n+si)%len(hist)]}
+				if sh.Cache >= 1 && (n+si)%len(hist) != 1 {
+					// on caching routers also start from a warm cache, so that a thread can hold a cache hit
+					hs = append(hs, hist[1])
+				}
+				for _, h := range hs {
+					if tier == "quick" {
+						// every statement of rux is a preemption point at bound 1; lock/pool/list/handler points at bound 2
+						emit(c03Case{Kind: "sched", Sched: &schedCfg{Shape: sh, Reqs: reqs, History: h, Bound: 1, Stmt: true, BudgetS: budget}})
+						emit(c03Case{Kind: "sched", Sched: &schedCfg{Shape: sh, Reqs: reqs, History: h, Bound: 2, Stmt: false, BudgetS: budget}})
+					} else {
+						emit(c03Case{Kind: "sched", Sched: &schedCfg{Shape: sh, Reqs: reqs, History: h, Bound: 2, Stmt: true, BudgetS: budget}})
+						emit(c03Case{Kind: "sched", Sched: &schedCfg{Shape: sh, Reqs: reqs, History: h, Bound: 3, Stmt: false, BudgetS: budget}})
+						if si%4 == n%4 {
+							emit(c03Case{Kind: "sched", Sched: &schedCfg{Shape: sh, Reqs: reqs, History: h, Bound: 1, Stmt: true, AllStmt: true, BudgetS: budget}})
+						}
 					}
 				}
 			}
